@@ -7,6 +7,7 @@ import CaddyModel.C19.Model
 import CaddyModel.C19.ClientAuth
 import CaddyModel.C19.Caddyfile
 import CaddyModel.C19.Quic
+import CaddyModel.C19.Conn
 
 namespace CaddyModel.C19
 
@@ -397,7 +398,30 @@ def resCanResume (p q : Built) : Bool := !p.ticketsOff && !q.ticketsOff
 def fullHostOk (h : Bytes) : Bool :=
   !h.isEmpty && h.all fun c => (97 ≤ c && c ≤ 122) || (65 ≤ c && c ≤ 90) || (48 ≤ c && c ≤ 57) || c == 46 || c == 58 || c == 45
 
+/-- Host values of the `conn` cases: as `full`, plus the empty Host field, which only an HTTP/1.1
+    client can put on the wire -/
+def connHostOk (proto : String) (h : Bytes) : Bool :=
+  if h.isEmpty then proto == "h1" else fullHostOk h
+
+/-- the three servers of the `conn` cases (harness `setupConn`): configured strict_sni_host, policies, sites -/
+def connServer : String → Option (Option Bool × List Policy × List Bytes)
+  | "a" => some (none, e2ePolicies, e2eSites)
+  | "b" => some (none, [⟨[], false, false⟩], [e2eSecret])
+  | "c" => some (some true, [⟨[], false, false⟩], e2eSites)
+  | _ => none
+
 def handle : List String → String
+  | ["conn", srv, proto, hs, sni, hosts] =>
+    match connServer srv, hexField sni, (hosts.splitOn ",").mapM hexField with
+    | some (cfg, ps, sites), some s, some hl =>
+      if !(proto == "h1" || proto == "h2" || proto == "h3") || !isAscii s || !e2eSniOk s ||
+          hl.length > 8 || !hl.all (connHostOk proto) then "bad-op"
+      else if hs == "f" then "hs=f"
+      else if hs == "ok" then
+        let strict := effectiveStrict cfg ps
+        " ".intercalate (("hs=ok strict=" ++ bit strict) :: (serveConn strict sites s hl).map showServed)
+      else "bad-op"
+    | _, _, _ => "bad-op"
   | ["full", srv, hs, sni, host] =>
     match hexField sni, hexField host with
     | some s, some h =>
